@@ -296,10 +296,14 @@ class Generator:
         if style < 0.15:
             return self.lit(Lt.stabilizer_obj(R, S, ph))
         if style < 0.55:
-            data = self.lit(Lt.lst(Lt.pauli_strings(R, S, ph, r.randrange(2))))
+            strs = Lt.pauli_strings(R, S, ph, r.randrange(2))
+            if allow_invalid and r.random() < self.cfg["p_invalid"] * 0.5 and len(strs) > 1:
+                k = r.randrange(1, len(strs))      # a bad character / a wrong length, never in the first string
+                strs[k] = r.choice([strs[k].lower(), strs[k][:-1], strs[k] + "X", strs[k].replace("I", "_", 1)])
+            data = self.lit(Lt.lst(strs))
         elif style < 0.85:
-            dt = r.choice(["int8", "int8", "int64", "bool", "uint8"])
-            items = [Lt.nd(R, dt), Lt.nd(S, dt)]
+            dt = r.choice(["int8", "int8", "int64", "bool", "uint8", "float64"])
+            items = [Lt.nd(R, dt), Lt.nd(S, dt)] if dt != "float64" else [Lt.ndf(R), Lt.ndf(S)]
             if r.random() < 0.6:
                 items.append(Lt.nd(ph, r.choice(["int8", "int64"])))
             data = self.lit(Lt.tup(items))
@@ -349,8 +353,12 @@ class Generator:
             if c:
                 return self.ref(r.choice(c))
         bad = allow_invalid and r.random() < self.cfg["p_invalid"]
+        qregs = None
+        if n >= 2 and r.random() < 0.1:
+            k = r.randint(1, n - 1)
+            qregs = [["qa", k], ["qb", n - k]]     # the same qubits, declared as two registers
         return self.lit(Lt.qc(n, Lt.random_clifford_ops(r, n, r.randint(0, 10), non_clifford=bad,
-                                                        extended=r.random() < extended)))
+                                                        extended=r.random() < extended), qregs=qregs))
 
     def need_graph(self, ex, n):
         r = self.rng
@@ -378,6 +386,8 @@ class Generator:
             if blanks:
                 key = key[:cut] + " " + key[cut:]
             d[key] = r.randint(1, 200)
+        if r.random() < 0.1:
+            d = {k: Lt.flt(v / 8.0) for k, v in d.items()}      # relative frequencies instead of integer counts
         if r.random() < self.cfg["p_invalid"] * 0.6:
             bad = r.choice(["0x" + "1" * max(0, nbits - 2), "2" * nbits, "1" * max(1, nbits - 1) if nbits > 1 else "", "ab"])
             items = list(d.items())
@@ -418,7 +428,8 @@ class Generator:
         if r.random() < self.cfg["p_invalid"] * 0.5:
             n = r.choice([1, 7, 0])
         op = r.choice(["mub.get_mub_circuits", "mub.get_mubs", "mub.get_mubs", "mub.get_mub_info"])
-        return self._call(op, [self.lit(n), self.lit(self._conn(n))])
+        nlit = self.lit(Lt.npint(n)) if r.random() < 0.08 else self.lit(n)
+        return self._call(op, [nlit, self.lit(self._conn(n))])
 
     def _fam_lookup(self, ex, pre):
         r = self.rng
@@ -428,9 +439,11 @@ class Generator:
             cid = r.randrange(NCLASSES[n])
             if r.random() < self.cfg["p_invalid"]:
                 cid = r.choice([-1, NCLASSES[n], 10 ** 6])
-            return self._call("lookup.stabilizer_circuit_lookup", [self.lit(n), self.lit(self._conn(n)), self.lit(cid)])
+            nlit = self.lit(Lt.npint(n)) if r.random() < 0.08 else self.lit(n)
+            return self._call("lookup.stabilizer_circuit_lookup", [nlit, self.lit(self._conn(n)), self.lit(cid)])
         if which < 0.7:
-            return self._call("lookup.mub_circuit_lookup", [self.lit(n), self.lit(self._conn(n))])
+            nlit = self.lit(Lt.npint(n)) if r.random() < 0.08 else self.lit(n)
+            return self._call("lookup.mub_circuit_lookup", [nlit, self.lit(self._conn(n))])
         if which < 0.8:
             c = self._slots(ex, lambda m: m["tag"] == "StabilizerCircuitInfo")
             if c:
